@@ -138,10 +138,10 @@ theorem sameCore_incChange (ob : Obj) (c : Crit) (d : Det) (v : Int) :
 
 theorem send_fst (now : Nat) (ob : Obj) (d : Det) (only : Option Nat) :
     (sendNotifications now ob d only).1 =
-      if ob.incr = true then { d with prev := some ob.pv } else d := by
+      if (ob.incr && sendMoves d only) = true then { d with prev := some ob.pv } else d := by
   unfold sendNotifications
   simp only
-  generalize (if ob.incr = true then { d with prev := some ob.pv } else d) = d1
+  generalize (if (ob.incr && sendMoves d only) = true then { d with prev := some ob.pv } else d) = d1
   repeat' split
   all_goals rfl
 
